@@ -1,12 +1,21 @@
 #!/usr/bin/env python3
 """Concatenate docsrc/*.md into DESIGN.md (the order below is the document's)."""
-import os
+import os, functools
 d = os.path.join(os.path.dirname(os.path.dirname(os.path.abspath(__file__))), "docsrc")
 order = ["part0", "sec1", "part2", "part3", "part4", "sec5", "sec6", "part7a", "part7b", "part7c", "sec8", "part9", "part10", "part11", "part12", "part13"]
 out = []
 for n in order:
     out.append(open(os.path.join(d, n + ".md")).read().rstrip("\n") + "\n")
-import re
+import re, json, glob, collections, subprocess
+V = os.path.dirname(d)
+kf = json.load(open(os.path.join(V, "known-findings.json")))
+cnt = collections.Counter(re.search(r"property=(C\d+)", f).group(1) for f in kf["fixed"])
+nfix = subprocess.check_output(["git", "-C", "/repo", "log", "--format=%s"]).decode().splitlines()
+nfix = sum(1 for l in nfix if l.startswith("fix:"))
+metas = [json.load(open(m)) for m in glob.glob(os.path.join(V, "seeded", "*", "meta.json"))]
+subst = {"@@NFIX@@": str(nfix), "@@FIXCOUNTS@@": ", ".join("%s %d" % kv for kv in sorted(cnt.items())),
+         "@@NSEED@@": str(len(metas)), "@@NSTR@@": str(sum(1 for m in metas if m["evaluation"]["caught"] == "after-strengthening"))}
+out = [functools.reduce(lambda t, kv: t.replace(*kv), subst.items(), x) for x in out]
 text = re.sub(r'(-{80,}\n)\n+(-{80,}\n)', r'\1', "\n".join(out))
 open(os.path.join(os.path.dirname(d), "DESIGN.md"), "w").write(text)
 print("DESIGN.md written:", sum(len(x) for x in out), "bytes")
